@@ -23,6 +23,8 @@ var registry = map[string]entry{
 	"C05": {"model_checking", checks.C05},
 	"C18": {"model_checking", checks.C18},
 	"C17": {"model_checking", checks.C17},
+	"C14": {"model_checking", checks.C14},
+	"C06": {"model_checking", checks.C06},
 	"C08": {"model_checking", checks.C08},
 	"C10": {"model_checking", checks.C10},
 	"C11": {"model_checking", checks.C11},
